@@ -211,6 +211,70 @@ chunk_stream_step!(c06_chunk_stream_second_only, [false, true], [2, 3], [2, 4], 
 chunk_stream_step!(c06_chunk_stream_second_only_raw, [false, true], [1, 2], [3, 2], true);
 chunk_stream_step!(c06_chunk_stream_none, [false, false], [2, 3], [2, 4], true);
 
+/// Three descriptors (checksums 1,2,3; sizes concrete, offsets any u64), a concrete subset still wanted -- in
+/// particular an unwanted descriptor BETWEEN two wanted ones, which two descriptors cannot express.
+fn chunk_stream_step3(want: [bool; 3], a: [usize; 3], s: [u32; 3], compressed: bool) {
+    let o: [u64; 3] = kani::any();
+    let mut descs = Vec::with_capacity(3);
+    descs.push(ChunkDescriptor { checksum: HashSum::from(&[1u8][..]), archive_size: a[0], archive_offset: o[0], source_size: s[0] });
+    descs.push(ChunkDescriptor { checksum: HashSum::from(&[2u8][..]), archive_size: a[1], archive_offset: o[1], source_size: s[1] });
+    descs.push(ChunkDescriptor { checksum: HashSum::from(&[3u8][..]), archive_size: a[2], archive_offset: o[2], source_size: s[2] });
+    let mut idx = ChunkIndex::new_empty(1);
+    if want[0] {
+        ci::add_entry(&mut idx, &[1u8], s[0] as usize, 0);
+    }
+    if want[1] {
+        ci::add_entry(&mut idx, &[2u8], s[1] as usize, 10);
+    }
+    if want[2] {
+        ci::add_entry(&mut idx, &[3u8], s[2] as usize, 20);
+    }
+    let comp = if compressed { Some(Compression { algorithm: CompressionAlgorithm::Brotli, level: 6 }) } else { None };
+    let mut ar = mk_archive(rec(), descs, Vec::new(), comp);
+    let mut cx = noop_cx();
+    let mut items: [Option<(u8, bool)>; 4] = [None; 4];
+    {
+        let mut st = ar.chunk_stream(&idx);
+        items[0] = next_item(&mut st, &mut cx);
+        items[1] = if items[0].is_some() { next_item(&mut st, &mut cx) } else { None };
+        items[2] = if items[1].is_some() { next_item(&mut st, &mut cx) } else { None };
+        items[3] = if items[2].is_some() { next_item(&mut st, &mut cx) } else { None };
+        std::mem::forget(st);
+    }
+    let rd = &ar.reader;
+    assert!(rd.calls == 1 && rd.read_at_calls == 0);
+    // expected: the wanted descriptors, in descriptor order
+    let mut e = 0;
+    let mut k = 0;
+    while k < 3 {
+        if want[k] {
+            assert!(rd.off[e] == o[k] && rd.size[e] == a[k], "requested range is not the wanted descriptor's stored range");
+            let raw = !compressed || a[k] == s[k] as usize;
+            assert!(items[e] == Some((k as u8 + 1, raw)), "item is paired with the wrong descriptor");
+            e += 1;
+        }
+        k += 1;
+    }
+    assert!(rd.n == e && items[e].is_none());
+    kani::cover!(o[2] < o[0]);
+    std::mem::forget(ar);
+    std::mem::forget(idx);
+}
+macro_rules! chunk_stream_step3 {
+    ($name:ident, $want:expr, $a:expr, $s:expr, $c:expr) => {
+        #[kani::proof]
+        #[kani::unwind(5)]
+        fn $name() {
+            chunk_stream_step3($want, $a, $s, $c);
+        }
+    };
+}
+chunk_stream_step3!(c06_chunk_stream3_tft, [true, false, true], [2, 3, 1], [2, 4, 3], true);
+chunk_stream_step3!(c06_chunk_stream3_ftt, [false, true, true], [2, 3, 1], [2, 4, 3], true);
+chunk_stream_step3!(c06_chunk_stream3_ttt, [true, true, true], [2, 3, 1], [2, 3, 1], false);
+chunk_stream_step3!(c06_chunk_stream3_fft, [false, false, true], [2, 3, 1], [2, 4, 1], true);
+chunk_stream_step3!(c06_chunk_stream3_ttf, [true, true, false], [1, 3, 2], [3, 3, 2], true);
+
 /// C08-7: after the first error the stream ends and the inner stream is not polled again.
 struct Scripted {
     items: [u8; 4], // 0 = end, 1 = Ok, 2 = Err
